@@ -331,6 +331,53 @@ func c19histogram(p *core.Prog, res *core.Result, info *types.Info, cc *ast.Case
 	}
 	bucket := defOrUse(info, post.Lhs[0])
 	width := defOrUse(info, post.Rhs[0])
+	if bucket != nil && width != nil {
+		// alignment: the first bucket equals floor(min/w)*w.  The start expression is evaluated
+		// arithmetically (it mentions only the minimum, the interval, constants, + - * / and
+		// math.Floor/Ceil/Trunc/Mod/Abs) on a grid that includes negative minima off the bucket edges.
+		if init, ok := outer.Init.(*ast.AssignStmt); ok && len(init.Rhs) == 1 {
+			var minVar types.Object
+			ast.Inspect(init.Rhs[0], func(n ast.Node) bool {
+				if id, ok := n.(*ast.Ident); ok {
+					if v, ok := info.Uses[id].(*types.Var); ok && v != width {
+						if bt, ok := v.Type().Underlying().(*types.Basic); ok && bt.Info()&types.IsNumeric != 0 {
+							minVar = v
+						}
+					}
+				}
+				return true
+			})
+			var witness string
+			evaluable := minVar != nil
+			cells := 0
+			for _, m := range []float64{-7.5, -5, -2.5, -0.5, 0, 0.5, 3, 7.5, 10} {
+				for _, w := range []float64{1, 2.5, 5} {
+					if !evaluable {
+						break
+					}
+					got, ok := arithEval(info, init.Rhs[0], map[types.Object]float64{minVar: m, width: w})
+					if !ok {
+						evaluable = false
+						break
+					}
+					cells++
+					if want := math.Floor(m/w) * w; got != want && witness == "" {
+						witness = fmt.Sprintf("for min=%v interval=%v the first bucket starts at %v, expected %v", m, w, got, want)
+					}
+				}
+			}
+			switch {
+			case !evaluable:
+				res.Unres("G4", "histogram|alignment", p.Pos(outer.Pos()), "start of the first bucket is not an arithmetic expression of the minimum and the interval: "+types.ExprString(init.Rhs[0]))
+			case witness != "":
+				res.Bad("G4", "histogram|alignment", p.Pos(outer.Pos()), fmt.Sprintf("the first histogram bucket (%s) is not floor(min/interval)*interval: %s — the values below it fall into no bucket, or buckets are not aligned to multiples of the interval", types.ExprString(init.Rhs[0]), witness))
+			default:
+				res.OK("G4", "histogram|alignment", p.Pos(outer.Pos()), fmt.Sprintf("%s equals floor(min/w)*w on %d (min, interval) pairs including negative minima off the bucket edges", types.ExprString(init.Rhs[0]), cells))
+			}
+		} else {
+			res.Unres("G4", "histogram|alignment", p.Pos(outer.Pos()), "bucket loop has no start assignment")
+		}
+	}
 	var inner *ast.RangeStmt
 	ast.Inspect(outer.Body, func(n ast.Node) bool {
 		if rs, ok := n.(*ast.RangeStmt); ok && inner == nil {
@@ -411,51 +458,6 @@ func c19histogram(p *core.Prog, res *core.Result, info *types.Info, cc *ast.Case
 		res.Bad("G4", "histogram|membership", p.Pos(cond.Pos()), fmt.Sprintf("histogram membership test is not the half-open interval [b, b+w): for value=%v bucket=%v width=%v the code yields %v — boundary values are counted in two adjacent buckets or in none", bad["v"], bad["b"], bad["w"], got))
 	default:
 		res.OK("G4", "histogram|membership", p.Pos(cond.Pos()), fmt.Sprintf("equals b <= v < b+w on all %d orderings of (v, b, w>=1)", n))
-	}
-	// alignment: the first bucket equals floor(min/w)*w.  The start expression is evaluated
-	// arithmetically (it mentions only the minimum, the interval, constants, + - * / and
-	// math.Floor/Ceil/Trunc/Mod/Abs) on a grid that includes negative minima off the bucket edges.
-	if init, ok := outer.Init.(*ast.AssignStmt); ok && len(init.Rhs) == 1 {
-		var minVar types.Object
-		ast.Inspect(init.Rhs[0], func(n ast.Node) bool {
-			if id, ok := n.(*ast.Ident); ok {
-				if v, ok := info.Uses[id].(*types.Var); ok && v != width {
-					if bt, ok := v.Type().Underlying().(*types.Basic); ok && bt.Info()&types.IsNumeric != 0 {
-						minVar = v
-					}
-				}
-			}
-			return true
-		})
-		var witness string
-		evaluable := minVar != nil
-		cells := 0
-		for _, m := range []float64{-7.5, -5, -2.5, -0.5, 0, 0.5, 3, 7.5, 10} {
-			for _, w := range []float64{1, 2.5, 5} {
-				if !evaluable {
-					break
-				}
-				got, ok := arithEval(info, init.Rhs[0], map[types.Object]float64{minVar: m, width: w})
-				if !ok {
-					evaluable = false
-					break
-				}
-				cells++
-				if want := math.Floor(m/w) * w; got != want && witness == "" {
-					witness = fmt.Sprintf("for min=%v interval=%v the first bucket starts at %v, expected %v", m, w, got, want)
-				}
-			}
-		}
-		switch {
-		case !evaluable:
-			res.Unres("G4", "histogram|alignment", p.Pos(outer.Pos()), "start of the first bucket is not an arithmetic expression of the minimum and the interval: "+types.ExprString(init.Rhs[0]))
-		case witness != "":
-			res.Bad("G4", "histogram|alignment", p.Pos(outer.Pos()), fmt.Sprintf("the first histogram bucket (%s) is not floor(min/interval)*interval: %s — the values below it fall into no bucket, or buckets are not aligned to multiples of the interval", types.ExprString(init.Rhs[0]), witness))
-		default:
-			res.OK("G4", "histogram|alignment", p.Pos(outer.Pos()), fmt.Sprintf("%s equals floor(min/w)*w on %d (min, interval) pairs including negative minima off the bucket edges", types.ExprString(init.Rhs[0]), cells))
-		}
-	} else {
-		res.Unres("G4", "histogram|alignment", p.Pos(outer.Pos()), "bucket loop has no start assignment")
 	}
 	// coverage: loop continues while bucket <= max
 	covered := false
@@ -594,7 +596,6 @@ func arithEval(info *types.Info, e ast.Expr, vals map[types.Object]float64) (flo
 	}
 	return 0, false
 }
-
 
 // substExpr copies a comparison expression, replacing identifiers that denote
 // the given objects (parameters of a helper) by the argument expressions.
